@@ -31,7 +31,7 @@ def vt(cfg):
 def run_mask(data, base, mask):
     cfg = dict(base)
     cfg["protfilter"] = mask
-    return run_reader(data, cfg)
+    return run_reader(data, cfg, use_iter=True)
 
 
 def judge(data, base, accepted_seq=False):
@@ -64,7 +64,7 @@ def judge(data, base, accepted_seq=False):
         # parsing=False vs parsing=True on a sequence of accepted frames
         bt = dict(base); bt["parsing"] = True; bt["protfilter"] = 7
         bf = dict(base); bf["parsing"] = False; bf["protfilter"] = 7
-        rt, rf = run_reader(data, bt), run_reader(data, bf)
+        rt, rf = run_reader(data, bt, use_iter=True), run_reader(data, bf, use_iter=True)
         n += 2
         if [x[0] for x in rt.items] != [x[0] for x in rf.items]:
             out.append(("parsing_false_changes_framing", f"true={[x[0].hex() for x in rt.items]} false={[x[0].hex() for x in rf.items]}"))
